@@ -61,7 +61,12 @@ class Event:
             if predicate and not predicate(args):
                 continue
             if one_shot:
-                self.unsubscribe(handler, *inner_args, **kwargs)
+                try:
+                    self.unsubscribe(handler, *inner_args, **kwargs)
+                except ValueError:
+                    # Already unsubscribed earlier in this same notification (the same handler
+                    # was also subscribed persistently and asked to be unsubscribed.)
+                    pass
             if asyncio.iscoroutinefunction(handler):
                 # Note that unsubscription may be delayed due to asyncio scheduling :)
 
